@@ -56,8 +56,17 @@ class RelBounds:
                 return self._is_end(ini, depth + 1)
         return False
 
-    def is_len(self, n):
-        return bool(self._is_len(n)) or self._is_end(n)
+    def is_len(self, n, depth=0):
+        if bool(self._is_len(n)) or self._is_end(n):
+            return True
+        n = std_unwrap(n)
+        if n.kind == "DeclRefExpr" and n.get("local") and depth < 4:
+            # the length held in a once-initialised, never reassigned local (`const size_t num_chars = chars.size();`)
+            from . import rules_atomic as _RA
+            ini = _RA.local_inits(self.fn).get(n.d["d"])
+            if ini is not None and not _RA._reassigned(self.fn, n.d["d"]):
+                return self.is_len(ini, depth + 1)
+        return False
 
     def _ptr_expr(self, n, depth=0):
         """pointer expression whose offset from the base is tracked"""
@@ -123,6 +132,8 @@ class RelBounds:
     def _var(self, n):
         n = n.strip()
         if n.kind == "DeclRefExpr" and n.get("local") and n.get("dk") in ("Var", "ParmVar") and n.d["d"] not in self.fn.bind_map():
+            if n.get("dk") == "Var" and self.is_len(n):
+                return None         # a local that only names the length is the length, not a variable
             t = n.get("t") or ""
             if t.endswith("*") and n.d["d"] in self.ptrvars:
                 return n.d["d"]
